@@ -493,6 +493,10 @@ fn histories(fx: &Fixture, tier: Tier, st: &mut Stats, only: Option<&Value>) {
         // one column: the record of a response for which the column does not resolve is the empty row
         ("csv_single_column", json!({"type": "csv", "sorted": false, "mapping": {"dist": "route.traversal_summary.distance"}})),
         ("csv_single_error_column", json!({"type": "csv", "sorted": true, "mapping": {"err": "error"}})),
+        // columns that do not resolve ahead (in header order) of a column that reads `error`: a row is the mapping applied to the
+        // response as it was produced, whatever the formatter notes about the failing columns afterwards
+        ("csv_failing_columns_before_error_column", json!({"type": "csv", "sorted": false, "mapping": {"err": {"optional": "error"}, "qid": "request.qid", "total": {"sum": ["route.no_such_number"]}, "nope": "does.not.exist"}})),
+        ("csv_failing_columns_before_error_column_sorted", json!({"type": "csv", "sorted": true, "mapping": {"c_err": {"optional": "error"}, "b_qid": "request.qid", "a_missing": "does.not.exist", "a_second": "route.no_such_field"}})),
     ];
     // run contents: indices into the query alphabet
     let contents: Vec<Vec<usize>> = vec![vec![0], vec![2], vec![0, 2], vec![1, 4, 3], vec![5, 0]];
@@ -595,7 +599,7 @@ fn histories(fx: &Fixture, tier: Tier, st: &mut Stats, only: Option<&Value>) {
                     }
                     let text = std::fs::read_to_string(&path).unwrap_or_default();
                     let lines: Vec<&str> = text.split('\n').filter(|l| !l.is_empty()).collect();
-                    if fname.starts_with("csv_single") {
+                    if fname.starts_with("csv_single") || fname.starts_with("csv_failing") {
                         // one column: empty rows are records; the wanted rows come from the responses of the queries run alone
                         let mut raw: Vec<&str> = text.split('\n').collect();
                         if raw.last() == Some(&"") {
@@ -631,7 +635,7 @@ fn histories(fx: &Fixture, tier: Tier, st: &mut Stats, only: Option<&Value>) {
                             st.violation(&comp, "single_header_first", seq.len() as u64, || format!("{} header lines; first line {:?}", n_headers, lines.first()), case);
                         }
                         // rows = the mapping applied to the responses, cell by cell in header order (responses kept in memory only)
-                        if persist.starts_with("persist") && fname != &"csv_missing_path" {
+                        if persist.starts_with("persist") && fname != &"csv_missing_path" && !fname.starts_with("csv_failing") {
                             let mut want: Vec<String> = all_returned.iter().map(|r| ref_csv_row(format, r)).collect();
                             let mut got: Vec<String> = lines.iter().filter(|l| **l != header).map(|l| l.to_string()).collect();
                             want.sort();
